@@ -15,7 +15,7 @@ import time
 import traceback
 import z3
 
-from .symnum import SymNum, term_of, is_sym
+from .symnum import SymNum, term_of, is_sym, make as _mksym
 
 
 class PathCut(BaseException):
@@ -228,7 +228,7 @@ class SymEngine:
             self._assume_raw(v >= lo)
         if hi is not None:
             self._assume_raw(v <= hi)
-        return SymNum(self, v)
+        return _mksym(self, v)
 
     def sym_real(self, name, lo=None, hi=None):
         v = z3.Real(name)
@@ -237,10 +237,10 @@ class SymEngine:
             self._assume_raw(v >= lo)
         if hi is not None:
             self._assume_raw(v <= hi)
-        return SymNum(self, v)
+        return _mksym(self, v)
 
     def wrap(self, term):
-        return SymNum(self, term)
+        return _mksym(self, term)
 
     # -- solver plumbing --------------------------------------------------------
     def _assume_raw(self, f):
@@ -522,7 +522,9 @@ class ConcreteEngine:
             raise ReplayDivergence("input %s not in witness" % name)
         return unpack_value(self.inputs_given[name])
 
-    sym_real = sym_int
+    def sym_real(self, name, lo=None, hi=None):
+        v = self.sym_int(name, lo, hi)
+        return float(v) if isinstance(v, int) and not isinstance(v, bool) else v
 
     def assume(self, f):
         if not f:
